@@ -55,7 +55,7 @@ def simple_zx(draw, tier, scalars=True):
                 and scan[off + n_in] not in owners:
             owners.add(scan[off + n_in])
             n_in += 1
-        n_out = draw(st.integers(0 if n_in else 1, 3 if len(scan) < 5 else 1))
+        n_out = draw(st.integers(0, 3 if len(scan) < 5 else 1))
         layers.append([{"k": "zx", "g": draw(st.sampled_from(["Z", "X"])),
                         "n": [n_in, n_out], "ph": draw(phases())}, off])
         scan = scan[:off] + [("box", k)] * n_out + scan[off + n_in:]
